@@ -20,6 +20,9 @@ class Run:
     pass
 
 
+BETA_BUFFERS = {}
+
+
 def classify_exception(e):
     """(tag, expected?) for an exception that ended a run."""
     tb = traceback.extract_tb(e.__traceback__)
@@ -86,6 +89,11 @@ def run_case(case):
         run.X, run.lens = None, None
     n_points = sum(run.lens) if run.lens else 0
     run.beta = wd.make_beta(case["beta"], n_points)
+    if case.get("beta_buffer") is not None:
+        # history: the caller re-uses one array object for several calls and refills it in place between them
+        buf = BETA_BUFFERS.setdefault((case["beta_buffer"], n_points), np.zeros(n_points))
+        buf[:] = np.asarray(run.beta, dtype=np.float64)
+        run.beta = buf
     run.lam = wd.make_lambda(case["lam"], run.N * W)
     run.beta_before = np.array(run.beta, copy=True) if isinstance(run.beta, np.ndarray) else run.beta
     run.lam_before = np.array(run.lam, copy=True) if isinstance(run.lam, np.ndarray) else run.lam
@@ -580,6 +588,13 @@ def evaluate(run, want=None):
 
     if not precondition_ok or labs is None:
         I.c("runs_precondition_not_met" if not precondition_ok else "runs_invalid_labels")
+        # even then: a criterion that is not finite although every returned MRF is a finite positive-definite matrix
+        try:
+            if eps_floor == 0 and all(np.all(np.isfinite(np.atleast_2d(mm))) and linalg.is_pd(np.atleast_2d(mm)) for mm in mrfs) \
+                    and not np.isfinite(float(res.bayesian_information_criterion)):
+                I.v("C16", "BIC is %r although every returned MRF is positive definite (a cluster's covariance was not finite)" % (res.bayesian_information_criterion,))
+        except Exception:
+            pass
         return I
 
     # ---- final model
@@ -686,6 +701,11 @@ def evaluate(run, want=None):
     beta_seen = None
     if run.label_steps:
         beta_seen = lab.beta_vector(np.asarray(run.label_steps[-1]["beta"], dtype=np.float64), Tp)
+    if beta_seen is not None and not joint and not np.array_equal(beta_seen[:max(Tp - 1, 0)], beta_vec[:max(Tp - 1, 0)]):
+        for pr in ("C06", "C07"):
+            I.v(pr, "the switching cost that reached the labelling step is not the caller's (first difference at pair %d: %r vs %r)" % (
+                int(np.argmax(beta_seen[:Tp - 1] != beta_vec[:Tp - 1])), float(beta_seen[int(np.argmax(beta_seen[:Tp - 1] != beta_vec[:Tp - 1]))]),
+                float(beta_vec[int(np.argmax(beta_seen[:Tp - 1] != beta_vec[:Tp - 1]))])))
     masked_seen = beta_seen is not None and np.array_equal(beta_seen[:Tp - 1], within[:Tp - 1])
     unmasked_seen = beta_seen is not None and np.array_equal(beta_seen[:Tp - 1], beta_vec[:Tp - 1])
     mask_matters = nseries > 1 and any(beta_vec[i] != 0 for i in boundary_idx)
